@@ -94,6 +94,27 @@ def _guardeval(run, P):
         direct = isinstance(v, ast.Call) and dotted(v.func) in ("self.eval_mapper", "self.eval_mapper.rec") \
             and v.args and norm(v.args[0]) in aliases
         ok = ok and direct
+    if not ok and rets:
+        # a table of remembered guard values: sound exactly when a remembered value is
+        # used only while the variables of the guard are unchanged.  A version that
+        # consults the variable store (or whose assignment handlers empty the table)
+        # may do that; whether it does is not read here.
+        C = P.cls(sm.INTERP) if hasattr(sm, "INTERP") else f.cls
+        units = [f] + [m for n_, m in C.methods.items()
+                       if any(isinstance(c_, ast.Call) and dotted(c_.func) == f"self.{n_}"
+                              for c_ in ast.walk(f.node))]
+        tables = {x.attr for x in ast.walk(f.node) if isinstance(x, ast.Attribute)
+                  and dotted(x.value) == "self" and x.attr not in ("eval_mapper", "context", "functions")
+                  and x.attr not in C.methods}
+        reads_store = any(isinstance(x, ast.Attribute) and dotted(x) == "self.context"
+                          for u in units for x in ast.walk(u.node))
+        invalidated = any(isinstance(c_, ast.Call) and isinstance(c_.func, ast.Attribute)
+                          and c_.func.attr in ("clear", "pop") and dotted(c_.func.value) in {f"self.{t}" for t in tables}
+                          for n_, m in C.methods.items() if n_.startswith("exec_")
+                          for c_ in ast.walk(m.node))
+        if tables and (reads_store or invalidated):
+            raise AnalysisError("evaluate_condition keeps remembered guard values and checks them against "
+                                "the variable store: whether the check is sufficient is not read")
     run.ob("C04.guardeval", f, rets[0] if rets else f.node, ok,
            construct="every return is self.eval_mapper(<stmt>.condition)",
            why="a guard value remembered from an earlier statement is stale when a "
